@@ -16,6 +16,15 @@ query mode, cycles):
            caption object yet (test-1.numbers + the two smallest such fixtures), on the smallest fixture
            whose table owns one, and on a fresh document; thorough: x geometry attributes set before /
            after the labels x all four boolean pairs
+  bordered-set  every readable fixture (<= 4000 cells) in which an ordinary table stores a border
+           stroke, plus a library-written document with horizontal and vertical borders that is saved
+           and loaded again: EVERY row height and column width of that table is set (distinct values) as
+           the very first action on the loaded document - no query before save - and in the variant
+           "query everything first, then set" (thorough: also queried afterwards)
+
+The subset family's border configurations include the re-bordered ones (3.0 pt then 0.35 pt and
+0.35 pt then 3.0 pt on the same edges), so the allowance of the live document and of the file differ
+when an existing border is not replaced in memory.
 
 each followed by 2 (quick) / 3 (thorough) open -> [query] -> save -> reopen cycles.
 
@@ -60,7 +69,10 @@ ALPHABET = {
     "names": [[t, s] for t, s in zip(TABLE_NAMES, SHEET_NAMES)],
     "caption": CAPTIONS, "caption_enabled": BOOLS, "name_enabled": BOOLS,
 }
-BORDERS = {"none": None, "thin": (0.35, "both"), "thick": (3.0, "both"), "oneside": (3.0, "one")}
+BORDERS = {"none": None, "thin": (0.35, "both"), "thick": (3.0, "both"), "oneside": (3.0, "one"),
+           # re-bordered: the same edges receive a second border of a different width
+           "thick>thin": [(3.0, "both"), (0.35, "both")], "thin>thick": [(0.35, "both"), (3.0, "both")]}
+WRITTEN = "<written>"
 COORD_GRID = [None, 0.0, 100.5, 350.25, 1234.0, 100.1]
 LABEL_ATTRS = ["names", "caption", "caption_enabled", "name_enabled"]
 TEMPLATE = "<template>"
@@ -167,11 +179,11 @@ def apply_mods(doc, sheet, table, case, idx=0):
     def do_borders():
         if border is None:
             return
-        width, sides = border
-        for r in rows:
-            table.set_cell_border(r, 0, ["top", "bottom"] if sides == "both" else "top", Border(width, RGB(0, 0, 0), "solid"), nc)
-        for c in cols:
-            table.set_cell_border(0, c, ["left", "right"] if sides == "both" else "left", Border(width, RGB(0, 0, 0), "solid"), nr)
+        for width, sides in (border if isinstance(border, list) else [border]):
+            for r in rows:
+                table.set_cell_border(r, 0, ["top", "bottom"] if sides == "both" else "top", Border(width, RGB(0, 0, 0), "solid"), nc)
+            for c in cols:
+                table.set_cell_border(0, c, ["left", "right"] if sides == "both" else "left", Border(width, RGB(0, 0, 0), "solid"), nr)
 
     def do_sizes():
         if "row_height" in vals:
@@ -276,6 +288,34 @@ def build(case, query):
             if hit is not None:
                 i, s, t = hit
                 exp[i], set_rows[i] = apply_mods(doc, s, t, case)
+        return doc, exp, set_rows
+    if kind == "bset":
+        if case["doc"] == WRITTEN:
+            # a document written by the library itself with horizontal and vertical borders, then loaded
+            d0 = Document(num_rows=6, num_cols=6)
+            t0 = d0.sheets[0].tables[0]
+            for r in (0, 2, 5):
+                t0.set_cell_border(r, 0, ["top", "bottom"], Border(3.0 if r else 1.0, RGB(0, 0, 0), "solid"), 6)
+            for c in (0, 1, 5):
+                t0.set_cell_border(0, c, ["left", "right"], Border(3.0 if c else 2.0, RGB(0, 0, 0), "solid"), 6)
+            path = _tmp()
+            d0.save(path)
+            doc = Document(path)
+            os.remove(path)
+        else:
+            doc = Document(fixture_path(case["doc"]))
+        if pre:
+            geo(doc)
+        i, s, t = first_bordered_table(doc)
+        # the very first action on the loaded table (after the optional full query): set every size
+        e, seed = {}, case.get("seed", 0)
+        for r in range(t.num_rows):
+            e[f"rh:{r}"] = 30 + (r * 7 + seed) % 41
+            t.row_height(r, e[f"rh:{r}"])
+        for c in range(t.num_cols):
+            e[f"cw:{c}"] = 50 + (c * 11 + seed) % 61
+            t.col_width(c, e[f"cw:{c}"])
+        exp[i], set_rows[i] = e, None
         return doc, exp, set_rows
     if kind == "order" and case["doc"] != FRESH:
         doc = Document(fixture_path(case["doc"]))
@@ -504,6 +544,10 @@ def gen_cases(tier, seed):
             for q in qmodes:
                 for v in range(nrot):
                     yield {"kind": "fresh", "family": "subset", "shape": [6, 6], "S": mask, "vals": rot_vals(mask, v, seed), "border": border, "q": q, "cycles": cycles}
+        for v, border in enumerate(("thick>thin", "thin>thick")):
+            for q in qmodes:
+                for w in (range(nrot) if thorough else (v,)):
+                    yield {"kind": "fresh", "family": "subset", "shape": [6, 6], "S": mask, "vals": rot_vals(mask, w, seed), "border": border, "q": q, "cycles": cycles}
         if thorough:
             # small table (header counts clamp to its size) and sizes-before-borders order
             for border in ("none", "thick"):
@@ -598,6 +642,47 @@ def gen_order_cases(tier, seed, docs):
                                "vals": dict(vals), "border": "none", "q": q, "cycles": cycles}
 
 
+def has_stored_border(doc, table):
+    """The table's stroke sidecar lists at least one stroke layer (read from the archive, no extraction)."""
+    m = doc._model
+    side = m.objects[m.objects[table._table_id].stroke_sidecar.identifier]
+    return any(len(getattr(side, f)) for f in ("top_row_stroke_layers", "bottom_row_stroke_layers", "left_column_stroke_layers", "right_column_stroke_layers"))
+
+
+def first_bordered_table(doc):
+    """(flat index, sheet, table) of the first ordinary table that stores a border; None if there is none."""
+    i = 0
+    for s in doc.sheets:
+        for t in s.tables:
+            if not doc._model.is_a_pivot_table(t._table_id) and has_stored_border(doc, t):
+                return i, s, t
+            i += 1
+    return None
+
+
+def bset_docs(fixtures):
+    """Documents of the set-without-query family. Rule: every readable fixture of at most 4000 cells in
+    which an ordinary table stores at least one border stroke layer (the first such table is the one
+    modified), plus one library-written document."""
+    out = []
+    for path, n in fixtures:
+        if not path.startswith(FIXTURES) or n > 4000:
+            continue
+        doc = Document(path)
+        if first_bordered_table(doc) is not None:
+            out.append((os.path.basename(path), n))
+    return out + [(WRITTEN, 36)]
+
+
+def gen_bset_cases(tier, seed, docs):
+    """Every row height and every column width of a loaded bordered table set as the very first action
+    (no query before save), and the variant 'query everything first, then set'."""
+    cycles = 3 if tier == "thorough" else 2
+    for doc, n in docs:
+        for q in ("none", "pre") + (("all", "post") if tier == "thorough" else ()):
+            yield {"kind": "bset", "family": "bordered-set", "doc": doc, "seed": seed, "q": q, "cycles": cycles}, n
+
+
 def work(cases):
     part = Part()
     keys = []
@@ -622,11 +707,11 @@ def work(cases):
         keys.append((fam, info.get("g0"), case.get("border", "none"), case["q"], case.get("order", "")))
         kinds = sorted({i["mechanism"] + ":" + i.get("class", i.get("attr", "")) for i, _ in res})
         part.outcome(f"held:{fam}:{case.get('border', 'none')}:q={case['q']}" if not res else "|".join(kinds))
-        label = case.get("fixture") or (f"{case['doc']} order={'>'.join(case['perm'])} geometry={case['geom'] if any(a in case['vals'] for a in ATTRS[:3]) else 'unset'}" if case["kind"] == "order"
+        label = case.get("fixture") or (f"{case['doc']} all sizes set" if case["kind"] == "bset" else None) or (f"{case['doc']} order={'>'.join(case['perm'])} geometry={case['geom'] if any(a in case['vals'] for a in ATTRS[:3]) else 'unset'}" if case["kind"] == "order"
                                         else f"{case['kind']} S={case.get('S', 0):07b} border={case.get('border', 'none')}")
         for ident, detail in res:
             part.fail(ident, f"[{label}] {detail}", case)
-        if fam in ("subset", "fixture", "order"):
+        if fam in ("subset", "fixture", "order", "bordered-set"):
             part.sample({"case": {k: v for k, v in case.items() if k != "vals"}, "outcome": kinds or "held"})
     d = part.dump()
     d["keys"] = keys
@@ -657,6 +742,9 @@ def main():
     fx = sorted(gen_fixture_cases(args.tier, args.seed, fixtures), key=lambda cn: -cn[1])
     odocs = order_docs(fixtures)
     fresh += list(gen_order_cases(args.tier, args.seed, odocs))
+    bdocs = bset_docs(fixtures)
+    bs = list(gen_bset_cases(args.tier, args.seed, bdocs))
+    fx = sorted(fx + bs, key=lambda cn: -cn[1])
     tasks = [[c] for c, _ in fx]
     chunk = 8
     tasks += [fresh[i:i + chunk] for i in range(0, len(fresh), chunk)]
@@ -669,6 +757,11 @@ def main():
     run.floor("every subset of the 7 attributes was executed (complete product with borders, query modes, rotations)",
               c["cases_subset"] == n_sub and len({x["S"] for x in fresh if x["family"] == "subset"}) == 128)
     run.floor("every generated case was executed", c["evaluations"] == len(fresh) + len(fx))
+    names = [d for d, _ in bdocs]
+    run.floor("bordered-set family: >= 4 loaded fixtures with stored borders (test-extra-borders, test-styles among them) and the library-written document, each set-first and query-then-set",
+              len(bdocs) >= 5 and {"test-extra-borders.numbers", "test-styles.numbers", WRITTEN} <= set(names) and c["cases_bordered-set"] == len(bs) >= 2 * len(bdocs))
+    run.extra["bordered_set_documents"] = names
+    run.floor("re-bordered configurations (thick>thin, thin>thick) ran on all 128 subsets", len({x["S"] for x in fresh if x.get("border") in ("thick>thin", "thin>thick")}) == 128)
     run.floor(">= 60 readable fixtures, each unqueried and queried", c["cases_fixture"] >= 120 and c["cases_fixture"] == 2 * len(fixtures))
     run.floor("all 36 coordinate pairs placed with add_table(x, y)", c["cases_coords"] == 36 * 4)
     n_ord = sum(1 for x in fresh if x["family"] == "order")
